@@ -56,6 +56,13 @@ func c09Atom(rng *rand.Rand, depth int) string {
 			return "(?'" + c09Names[rng.Intn(len(c09Names))] + "'" + body + ")"
 		case g < 10:
 			return "(?<" + strconv.Itoa([]int{1, 2, 3, 5, 10, 12}[rng.Intn(6)]) + ">" + body + ")"
+		case g < 11 && rng.Intn(3) == 0:
+			// balancing groups on the pool's names (a compile error when the name is not a group of the pattern)
+			nm := c09Names[rng.Intn(len(c09Names))]
+			if rng.Intn(2) == 0 {
+				return "(?<-" + nm + ">" + body + ")"
+			}
+			return "(?<" + c09Names[rng.Intn(len(c09Names))] + "-" + nm + ">" + body + ")"
 		default:
 			return "(?:" + body + ")"
 		}
@@ -120,8 +127,44 @@ func c09Rep(rng *rand.Rand) string {
 	return sb.String()
 }
 
+// c09Balanced: some matches pop captures of a group (so the match has to be compacted before its groups are
+// read) and others do not, in either order, and the replacement refers to the popped group.
+func c09Balanced(rng *rand.Rand) c09Case {
+	nm := c09Names[rng.Intn(3)]
+	push := "(?<" + nm + ">a)"
+	if rng.Intn(2) == 0 {
+		push += "(?<" + nm + ">b)"
+	}
+	pop := "(?<-" + nm + ">c)"
+	if rng.Intn(3) == 0 {
+		pop = "(?<x-" + nm + ">c)"
+	}
+	bal := push + pop
+	if rng.Intn(3) == 0 {
+		bal = push + "-?" + pop + "?"
+	}
+	plain := []string{"x", "(?<" + nm + ">-)", "[x-]", `\d`}[rng.Intn(4)]
+	pat := plain + "|" + bal
+	if rng.Intn(2) == 0 {
+		pat = bal + "|" + plain
+	}
+	words := []string{"x", "-", "abc", "ac", "ab", "abc", "1", " ", "a-c", "abbc"}
+	var sb strings.Builder
+	for k := 2 + rng.Intn(5); k > 0; k-- {
+		sb.WriteString(words[rng.Intn(len(words))])
+		if rng.Intn(3) == 0 {
+			sb.WriteByte(' ')
+		}
+	}
+	reps := []string{"[${" + nm + "}]", "<$1>", "$+", "${" + nm + "}$2", "[$1|$2]", "$&:${" + nm + "}"}
+	return c09Case{Pattern: pat, Input: sb.String(), Rep: reps[rng.Intn(len(reps))]}
+}
+
 func c09Gen(rng *rand.Rand, i int) c09Case {
 	cs := c09Case{Pattern: c09Alt(rng, 2), Input: c09Input(rng), Rep: c09Rep(rng)}
+	if rng.Intn(12) == 0 {
+		cs = c09Balanced(rng)
+	}
 	switch rng.Intn(12) {
 	case 0, 1, 2, 3:
 		cs.Opts = int(regexp2.RightToLeft)
